@@ -91,7 +91,8 @@ def replay_scenarios(ck, binary, name, scenarios, extra_args=()):
     ck.traces += summary["scenarios"]
     ck.evaluations += summary["evaluations"]
     ck.part(name, scenarios=summary["scenarios"], real_calls=summary["evaluations"], mismatches=summary["mismatches"],
-            in_child_process=summary["in_child"], types=summary["types"], size_hints_not_exact=summary["hint_inexact"])
+            oversized_prefix_cases=summary["oversized_prefix_cases"], worker_forks=summary["worker_forks"],
+            aborts=summary["aborts"], types=summary["types"], size_hints_not_exact=summary["hint_inexact"])
     return summary
 
 
